@@ -112,6 +112,8 @@ pub struct DocumentBuilder<'a> {
     // Useful to keep the same arguments for a specific field on a specific type
     pub(crate) chosen_arguments: IndexMap<TypeAttributeCoordinate, Vec<Argument>>,
     pub(crate) used_type_names: HashSet<String>,
+    // Current nesting of selection sets being generated
+    pub(crate) selection_set_depth: usize,
     // Maximum number of generated definitions per kind
     max_scalar_types: usize,
     max_enum_types: usize,
@@ -160,6 +162,7 @@ impl<'a> DocumentBuilder<'a> {
             stack: Vec::new(),
             chosen_arguments: IndexMap::new(),
             used_type_names: HashSet::new(),
+            selection_set_depth: 0,
             max_scalar_types: DEFAULT_MAX,
             max_enum_types: DEFAULT_MAX,
             max_interface_types: DEFAULT_MAX,
@@ -342,6 +345,7 @@ impl<'a> DocumentBuilder<'a> {
             stack: Vec::new(),
             chosen_arguments: IndexMap::new(),
             used_type_names: HashSet::new(),
+            selection_set_depth: 0,
             max_scalar_types: DEFAULT_MAX,
             max_enum_types: DEFAULT_MAX,
             max_interface_types: DEFAULT_MAX,
